@@ -116,3 +116,8 @@ Theorem C10_normal_noise_entries : forall mu sigma n,
   Forall2 Qeq (normal_call mu sigma n) (map (fun p => fst (fst p) + snd (fst p) * snd p) (combine (combine mu sigma) n)).
 Proof. exact normal_call_spec. Qed.
 Print Assumptions C10_normal_noise_entries.
+
+(* reset() without initial_noise restores a vector of zeros of the action dimension *)
+Theorem C10_ou_reset_zeros : forall v, zeros_like v = map (fun _ => 0) v /\ length (zeros_like v) = length v.
+Proof. exact zeros_like_spec. Qed.
+Print Assumptions C10_ou_reset_zeros.
